@@ -6,7 +6,7 @@ from props import c02
 PROP = "C04"
 PROTOS = ["netrpc", "grpc", "grpcmux"]
 LAUNCHES = ["cmd", "runner", "reattach", "foreign"]   # foreign: reattached to a process that is not a child of the host
-BEHAVIOURS = ["prompt", "busy", "delay", "ignore", "frozen", "crashed", "failedhandshake"]
+BEHAVIOURS = ["prompt", "busy", "delay", "ignore", "frozen", "crashed", "failedhandshake", "brokerbusy_h", "brokerbusy_p"]
 MODEL_CFGS = ["kill_prompt.cfg", "kill_delay.cfg", "kill_ignore.cfg", "kill_crashed.cfg", "kill_frozen_ok.cfg", "kill_frozen_err.cfg", "kill_unconnected.cfg"]
 
 
@@ -62,7 +62,7 @@ def make_cases(tier, rng):
     return cases
 
 
-MODEL_BEHAVIOUR = {"prompt": "prompt", "busy": "prompt", "delay": "delay", "ignore": "ignore", "crashed": "crashed", "failedhandshake": "unconnected"}
+MODEL_BEHAVIOUR = {"prompt": "prompt", "busy": "prompt", "brokerbusy_h": "prompt", "brokerbusy_p": "prompt", "delay": "delay", "ignore": "ignore", "crashed": "crashed", "failedhandshake": "unconnected"}
 
 
 def kill_trace_rows(o):
